@@ -120,14 +120,22 @@ func c09gFields(t *rapid.T, label string, nIllegal int, cluster bool, off *c09gO
 		f = append(f, fmt.Sprintf("%q:%q", "memoryCalculatePolicy", rapid.SampledFrom([]string{"usage", "request", "maxUsageRequest"}).Draw(t, label+"MemPolicy")))
 	}
 	if cluster {
-		switch rapid.IntRange(0, 9).Draw(t, label+"Degrade") {
+		dg := rapid.IntRange(0, 9).Draw(t, label+"Degrade")
+		if nIllegal == 0 && dg == 9 {
+			dg = 0
+		}
+		switch dg {
 		case 9:
 			f = append(f, fmt.Sprintf("%q:%d", "degradeTimeMinutes", rapid.SampledFrom([]int64{0, -5}).Draw(t, label+"DegradeBad")))
 			off.illegal = append(off.illegal, "degradeTimeMinutes:<1")
 		case 0, 1, 2:
 			f = append(f, fmt.Sprintf("%q:%d", "degradeTimeMinutes", rapid.Int64Range(5, 60).Draw(t, label+"DegradeMin")))
 		}
-		switch rapid.IntRange(0, 9).Draw(t, label+"Diff") {
+		df := rapid.IntRange(0, 9).Draw(t, label+"Diff")
+		if nIllegal == 0 && df == 9 {
+			df = 0
+		}
+		switch df {
 		case 9:
 			f = append(f, fmt.Sprintf("%q:%s", "resourceDiffThreshold", rapid.SampledFrom([]string{"0", "-0.1"}).Draw(t, label+"DiffBad")))
 			off.illegal = append(off.illegal, "resourceDiffThreshold:<=0")
@@ -141,9 +149,12 @@ func c09gFields(t *rapid.T, label string, nIllegal int, cluster bool, off *c09gO
 	return f
 }
 
-func c09gOfferGen(t *rapid.T) c09gOffer {
+func c09gOfferGen(t *rapid.T, legalCluster bool) c09gOffer {
 	off := c09gOffer{}
-	nIll := rapid.SampledFrom([]int{0, 1, 0, 1, 2}).Draw(t, "illegalClusterFields")
+	nIll := 0
+	if !legalCluster {
+		nIll = rapid.SampledFrom([]int{1, 0, 1, 2}).Draw(t, "illegalClusterFields")
+	}
 	f := c09gFields(t, "cluster", nIll, true, &off, false)
 	if !rapid.SampledFrom([]bool{false, false, false, false, false, false, false, false, false, false, false, true}).Draw(t, "enableOmitted") {
 		f = append([]string{`"enable":true`}, f...)
@@ -248,7 +259,8 @@ func TestVerifC09ConfigGate(t *testing.T) {
 		sawIllegalThenPublished, sawRejected, sawAccepted := false, false, false
 		versions := rapid.IntRange(1, 3).Draw(t, "configVersions")
 		for v := 0; v < versions; v++ {
-			off := c09gOfferGen(t)
+			// the first offer is usually legal so that a configuration is in force when illegal ones arrive
+			off := c09gOfferGen(t, v == 0 && rapid.SampledFrom([]bool{true, true, false}).Draw(t, "firstOfferLegal"))
 			cm := &corev1.ConfigMap{ObjectMeta: metav1.ObjectMeta{Namespace: sloconfig.ConfigNameSpace, Name: sloconfig.SLOCtrlConfigMap},
 				Data: map[string]string{configuration.ColocationConfigKey: off.json}}
 			before := handler.GetCfgCopy()
